@@ -1060,6 +1060,25 @@ def rule_problem_readonly(ctx: Ctx, prog: Program) -> None:
                               f"{f.qualname} stores into the problem it solves (`{ast.unparse(bad)[:70]}`): the model is changed as a side effect of solving it, so "
                               "solving it again, extending it or giving it to another solver no longer addresses the model that was written down "
                               "(e.g. the objective bound of a finished optimisation stays in the domains: the next minimize returns None)")
+    # the compiled side of the same rule: the arrays Problem.init() derives from the model travel into the engine as arguments; a store
+    # through one of them (an entailed propagator's column of the wake-up table cleared 'at the root') changes the model for every later
+    # search, restart and solver
+    from ..roles import get_roles
+    from .engine import _stores_through
+    roles = get_roles(prog)
+    n_arr = 0
+    for role in ("triggers", "algorithms", "var_bounds", "param_bounds", "dom_indices_arr", "dom_offsets_arr", "props_dom_indices", "props_dom_offsets", "props_parameters"):
+        for f, p_ in roles.functions_with_role(role):
+            if f.module.startswith(f"{prog.package}.problems") or ".tests" in f.module:
+                continue
+            n_arr += 1
+            if _stores_through(f, p_):
+                n_bad += 1
+                ctx.violation("R-PROBLEM-READONLY", f.path, f.qualname, f"writes-model-array:{role}", f.loc(),
+                              f"{f.qualname} stores through its parameter '{p_}', which carries the problem's {role} array (derived once by Problem.init() and "
+                              "shared by every search, restart and solver on that problem): what one search writes there stays for all later ones "
+                              "(a propagator made deaf 'at the root' stays deaf after the next restart)")
+    ctx.floor("R-PROBLEM-READONLY:model-array-parameters", n_arr, 20)
     if not n_bad:
         ctx.ok("R-PROBLEM-READONLY", "no solver code stores into the problem object (only problem.init() rebuilds its derived arrays)", sample={"functions": n})
     ctx.floor("R-PROBLEM-READONLY:functions-with-a-problem", n, 3)
@@ -1179,3 +1198,66 @@ def rule_decision_cover(ctx: Ctx, prog: Program) -> None:
                           "holds on a branch where no propagator grounds it, and the solutions of that branch are not reported")
         else:
             raise AnalysisError(f"R-DECISION-COVER: cannot classify the default decision set `{src[:80]}` ({f.path}:{d.lineno})")
+
+
+# ------------------------------------------------------------------------------------------ R-PARTS-USED
+def rule_parts_used(ctx: Ctx, prog: Program) -> None:
+    """split() is only half of the partition: each part must be what one worker searches.  Wherever the package iterates over the result
+    of `.split(...)` to build solvers, the loop variable -- the part -- has to reach a solver constructor, directly or through a helper
+    whose corresponding parameter does.  A helper that ignores its parameter and closes over the whole problem gives every worker the whole
+    problem: every solution is found once per worker."""
+    ctx.rule("R-SPLIT")
+    n = 0
+
+    def reaches_solver(fn_node: ast.AST, name: str, helpers: Dict[str, ast.FunctionDef], depth: int = 0) -> bool:
+        for c in ast.walk(fn_node):
+            if not isinstance(c, ast.Call):
+                continue
+            cname = ast.unparse(c.func).split(".")[-1]
+            args = list(c.args) + [k.value for k in c.keywords]
+            pos = [i for i, a in enumerate(c.args) if any(isinstance(y, ast.Name) and y.id == name for y in ast.walk(a))]
+            kws = [k.arg for k in c.keywords if any(isinstance(y, ast.Name) and y.id == name for y in ast.walk(k.value))]
+            if not pos and not kws:
+                continue
+            if cname.endswith("Solver"):
+                return True
+            h = helpers.get(cname)
+            if h is not None and depth < 3:
+                ps = [a.arg for a in h.args.posonlyargs + h.args.args]
+                for i in pos:
+                    if i < len(ps) and reaches_solver(h, ps[i], helpers, depth + 1):
+                        return True
+                for k in kws:
+                    if k in ps and reaches_solver(h, k, helpers, depth + 1):
+                        return True
+        return False
+
+    for m in prog.modules.values():
+        if ".tests" in m.name:
+            continue
+        helpers = {x.name: x for x in ast.walk(m.tree) if isinstance(x, ast.FunctionDef)}
+        for x in ast.walk(m.tree):
+            gens: List[Tuple[ast.expr, ast.expr, List[ast.AST]]] = []
+            if isinstance(x, (ast.ListComp, ast.GeneratorExp, ast.SetComp)):
+                for g in x.generators:
+                    gens.append((g.target, g.iter, [x.elt]))
+            elif isinstance(x, ast.For):
+                gens.append((x.target, x.iter, list(x.body)))
+            for tgt, it_, body in gens:
+                if not (isinstance(it_, ast.Call) and isinstance(it_.func, ast.Attribute) and it_.func.attr == "split" and len(it_.args) == 2):
+                    continue
+                if not isinstance(tgt, ast.Name):
+                    continue
+                builds = any(isinstance(c, ast.Call) and (ast.unparse(c.func).split(".")[-1].endswith("Solver") or ast.unparse(c.func).split(".")[-1] in helpers) for b in body for c in ast.walk(b))
+                if not builds:
+                    continue
+                n += 1
+                wrapper = ast.Module(body=[ast.Expr(value=b) if isinstance(b, ast.expr) else b for b in body], type_ignores=[])
+                if reaches_solver(wrapper, tgt.id, helpers):
+                    ctx.ok("R-SPLIT", f"{m.relpath}:{x.lineno}: each part of the split is handed to the solver built for it")
+                else:
+                    ctx.violation("R-SPLIT", m.relpath, "<module>", "part-not-used", f"{m.relpath}:{x.lineno}",
+                                  f"the solvers built while iterating over `{ast.unparse(it_)[:50]}` do not receive the part '{tgt.id}' (it is not an argument of a "
+                                  "solver constructor, nor of a helper whose parameter reaches one): every worker searches the same problem and every "
+                                  "solution is reported once per worker")
+    ctx.floor("R-SPLIT:consumers-of-split", n, 1)
